@@ -254,7 +254,9 @@ def check_nonce_helper(rep, facts, hkey, base_idx, seq_idx, rule):
                     A, B = (x[2][0], x[3]), (y[2][0], y[3])
                     shape_ok = True
     if not shape_ok:
-        loop = _nonce_loop_form(rep, facts, a, rt, base_idx, rule)
+        loop = _nonce_zip_loop_form(rep, facts, a, rt, base_idx, rule)
+        if loop is None:
+            loop = _nonce_loop_form(rep, facts, a, rt, base_idx, rule)
         if loop is None:
             rep.undecided(rule, fn, 'xor-shape', pp(rt)[:300],
                           'AeadNonce(from_exact_iter(base.iter().zip(buf.iter()).map(|(a,b)| a ^ b)).unwrap()) or `for i in 0..len { buf[i] ^= base[i] }`', where(a))
@@ -328,8 +330,9 @@ def _check_counter_writer(rep, facts, a, fn, l, writer, base_idx, seq_idx, same_
             kval = None
             if k[0] == 'const' and isinstance(k[2], int):
                 kval = k[2]
-            elif k[0] == 'call' and k[1] == 'core::mem::size_of' and k[4] and k[4][4] == ('aead::Seq',):
-                kval = nbytes if seqw else None
+            elif k[0] == 'call' and k[1] == 'core::mem::size_of':
+                from .common import size_of_term
+                kval = size_of_term(facts, k)
             len_ok = False
             if ln[0] == 'len':
                 lb, lf = addr_fields(ln[1])
@@ -339,6 +342,65 @@ def _check_counter_writer(rep, facts, a, fn, l, writer, base_idx, seq_idx, same_
     rep.check(pos_ok, rule, fn, 'counter-position', found,
               'the %d bytes ending at the end of the nonce buffer: buf[len-%d ..]' % (nbytes, nbytes), where(a, wsite))
     return True
+
+
+def _nonce_zip_loop_form(rep, facts, a, rt, base_idx, rule):
+    """`for (m, n) in buf.0.iter_mut().zip(base.0.iter()) { *m ^= *n }` (either zip order) after the counter has been
+    written into buf: -> (buf local, init, encoder writer) or None.  Silent when the shape is a different one."""
+    if rt[0] != 'mem' or rt[4]:
+        return None
+    l, init, writers = rt[1], rt[2], rt[3]
+    calls = [w for w in writers if w[2][0] == 'call']
+    unk = [w for w in writers if w[2][0] == 'store?']
+    if len(calls) != 1 or len(unk) != 1 or len(writers) != 2 or not calls[0][3]:
+        return None
+    ssite = unk[0][0]
+    st = a.stmt_at(ssite)
+    if st.get('k') != 'assign' or st['place']['p'] != ['deref'] or st['rv'].get('k') != 'binop' or st['rv'].get('op') != 'BitXor':
+        return None
+    mref = a.val_local(st['place']['l'], ssite)
+    v = a.val_rv(st['rv'], ssite)
+    ops = [v[2], v[3]]
+
+    def pair_side(r):
+        # r = field k of the Some payload of Iterator::next(&mut it)
+        if r[0] == 'field' and r[1] in ('0', '1') and r[2][0] == 'field' and r[2][1] == '0' and r[2][2][0] == 'variant' and r[2][2][1] == 'Some' and \
+                r[2][2][2][0] == 'call' and r[2][2][2][1] == 'core::iter::Iterator::next':
+            return int(r[1]), r[2][2][2]
+        return None, None
+    km, nxt = pair_side(mref)
+    if km is None:
+        return None
+    loads = []
+    for x in ops:
+        if x[0] == 'load' and not x[2]:
+            k, n2 = pair_side(x[1])
+            if k is not None and n2[3] == nxt[3]:
+                loads.append(k)
+    if sorted(loads) != [0, 1]:
+        return None
+    nb = nxt[3]
+    it = a.deref_val(a.arg_val(nb, 0), a.term_point(nb))
+    src = it[2] if it[0] == 'mem' else it
+    while src[0] == 'call' and src[1] == 'core::iter::IntoIterator::into_iter':
+        src = src[2][0]
+    if not (src[0] == 'call' and src[1] == 'core::iter::Iterator::zip' and len(src[2]) == 2):
+        return None
+    sides = list(src[2])
+    mside, oside = sides[km], sides[1 - km]
+    okm = mside[0] == 'call' and mside[1].endswith('::iter_mut') and mside[2][0][0] == 'addr' and mside[2][0][1] == ('local', l) and \
+        all(e[0] == 'f' for e in mside[2][0][2])
+    b, fs = addr_fields(oside[2][0]) if oside[0] == 'call' and oside[1].endswith('::iter') else (None, None)
+    oko = b == ('param', base_idx) and fs == ['0']
+    fn = a.body.key
+    if not (okm and oko):
+        rep.bad(rule, fn, 'xor-loop-operands', '%s zip %s' % (pp(mside)[:80], pp(oside)[:80]),
+                'the whole counter buffer (iter_mut) zipped with the whole base nonce (iter)', where(a, ssite))
+        return None
+    rep.ok(rule, fn, 'xor-loop-body', '*m ^= *n over buf.iter_mut().zip(base_nonce.iter()) (equal lengths by type)')
+    rep.check(a.cfg.dominates(calls[0][0][0], ssite[0]), rule, fn, 'xor-after-counter', 'encoder at bb%d, xor loop at bb%d' % (calls[0][0][0], ssite[0]),
+              'the counter is written before the XOR loop', where(a, ssite))
+    return l, init, calls[0]
 
 
 def _nonce_loop_form(rep, facts, a, rt, base_idx, rule):
